@@ -41,5 +41,5 @@ if [ $ok -eq 1 ]; then
   mkdir -p $OUT; cp $SRC/patch.diff $OUT/; cp $demo $OUT/; cp $SRC/meta.json $OUT/meta.agent.json 2>/dev/null
   tail -5 $log > $OUT/confirm.txt
 fi
-cd /; git -C /repo worktree remove --force $WT
+cp $log /tmp/confirm/$NAME.log 2>/dev/null; cd /; git -C /repo worktree remove --force $WT
 exit $((1-ok))
